@@ -702,6 +702,23 @@ def pkrwH : Handler := fun args impl =>
     | _, _ => unmodelled
   | _ => unmodelled
 
+/-- `loc <hex frame>` (C10): frame locality on the implementation — a conformant frame written by the independent
+    switch-side encoder is parsed from two buffers holding different bytes behind the frame; the message and its
+    re-encoding must be the same (what the recycled pool buffer holds behind a frame must not reach the delivered message).
+    The model does the same with its own `parse` (the C10c theorems say when that is guaranteed). -/
+def locH : Handler := fun args impl =>
+  match args with
+  | [hx] =>
+    match ofHex hx with
+    | some fr =>
+      let one (fill : Nat) : String :=
+        let tail := (List.range 96).map (fun i => UInt8.ofNat (fill + (fr.length + i) % 7))
+        showR V.toText (parse (fr.length + 1) ⟨fr ++ tail, fr.length⟩)
+      let m := if one 0 = one 0xf1 then "local" else "nonlocal"
+      { model := m, more := if impl = "nonlocal" then [("C10", s!"a conformant frame of {fr.length} bytes parses differently depending on the bytes behind it in the buffer")] else [] }
+    | none => unmodelled
+  | _ => unmodelled
+
 /-- `dhcpsz <seed>` (C06): a DHCP message built through the API (options appended in any order, pad / end options anywhere,
     padding behind an end option): the model's size and encoding of the value the implementation built must agree with the
     implementation's, and the reported size must be the number of bytes `Read` produces -/
@@ -753,7 +770,7 @@ def handlers : List (String × Handler) :=
       match a with
       | kn :: _ :: ln :: _ => if kn.startsWith "p." ∧ (i = "panic" ∨ i = "spin") then { v with more := [("C08", s!"{kn} decoder on {ln} bytes: {i}")] } else v
       | _ => v),
-   ("fn", fn), ("prog", prog), ("api", api), ("apix", apix), ("parse", parseH), ("sw", swH), ("pk", pkH), ("pkrw", pkrwH), ("dhcpsz", dhcpszH), ("embed", embedH), ("embedw", embedH),
+   ("fn", fn), ("prog", prog), ("api", api), ("apix", apix), ("parse", parseH), ("sw", swH), ("pk", pkH), ("pkrw", pkrwH), ("dhcpsz", dhcpszH), ("loc", locH), ("embed", embedH), ("embedw", embedH),
    ("rep", rep), ("rtrip", rtWith false), ("rtparse", rtWith true), ("rtw", rtw), ("scribble", scribble),
    -- literal values: the repeated-call oracle ("same answer every time") applies to any value whatsoever; the
    -- size-vs-bytes part belongs to C06 and is judged on API-built values only
